@@ -178,8 +178,9 @@ public:
         // All okay, set the backend worker thread running flag
         _is_worker_running.store(true);
 
-        // Running
-        while (QUILL_LIKELY(_is_worker_running.load(std::memory_order_relaxed)))
+        // Running. Acquire pairs with the exchange in stop(): the final drain in _exit() must see every
+        // log statement the stopping thread pushed before it requested the stop
+        while (QUILL_LIKELY(_is_worker_running.load(std::memory_order_acquire)))
         {
           // main loop
           QUILL_TRY { _poll(); }
